@@ -1,6 +1,7 @@
 import Cstl.Gen.SortC
 import Cstl.Sort.CSem
 import Cstl.Sort.Lemmas
+import Cstl.Sort.Props
 /-
 Translator ties for the raw-array algorithms of src/array.c (property C11).
 
@@ -15,6 +16,8 @@ C11 theorems of Props*.lean are about — is that translation, function by funct
   search      `searchLoop_tie`, `search_tie`; `findLoop_tie`, `find_tie`; `revLoop_tie`, `reverse_tie`
   quicksort   `qsort_step` (pivot block = `pickPivot`, incl. the median-of-three 3-sort), `qsort_tie`
   dispatch    `sort_tie`
+  composed    `c_sort_sorts`, `c_sort_sorted_perm`: the TRANSLATED `cstl_raw_array_sort` returns a sorted
+              permutation (C11's theorems carried across the tie); `translated_sort_example`
 
 Form of the ties.  Where model and translation count fuel the same way the tie is an equality
 (`scanUp`, `scanDown`, `searchLoop`, `findLoop`, `revLoop`, …).  Where they do not — the model's
@@ -820,9 +823,33 @@ theorem sort_tie_std (f : Nat) (s : St) (algo : Nat) (hc : s.arr.size < 92233720
   sort_tie fuStd f s algo hc (fun _ => rfl) (fun _ => rfl) (fun _ => rfl) (fun _ => rfl)
     (by unfold fuStd; omega) (by unfold fuStd; omega) hne (f + 3) (Nat.le_refl _)
 
+/-- **the translated C function sorts**: for the deterministic selectors (everything but the random
+pivot) `cstl_raw_array_sort`, as regenerated from the source, returns a sorted permutation of every
+array of fewer than 2^63 elements, never stops out of bounds, and its run (comparison / swap log
+included) is the model's (`sort_terminates` discharges the "model finishes" hypothesis of the tie) -/
+theorem c_sort_sorts (s : St) (algo : Nat) (halgo : algo ≠ 1) (hc : s.arr.size < 9223372036854775808) :
+    ∃ s', c_cstl_raw_array_sort fuStd (s.arr.size + 3) s 0 s.arr.size algo = .ok s' ∧
+      sort s.arr.size s algo = .ok s' ∧
+      s'.arr.toList.Perm s.arr.toList ∧
+      s'.arr.toList.Pairwise (fun x y => x.key ≤ y.key) := by
+  obtain ⟨s', h, hp, hs⟩ := sort_terminates s.arr.size s algo halgo (Nat.le_refl _)
+  refine ⟨s', ?_, h, hp, hs⟩
+  rw [sort_tie_std s.arr.size s algo hc (by rw [h]; simp), h]
+
+/-- with the random pivot (any selector, any draw stream, any budget): whenever the model returns,
+the translated C function returns the same state — a sorted permutation (`sort_sorted_perm`) -/
+theorem c_sort_sorted_perm (f : Nat) (s s' : St) (algo : Nat) (hc : s.arr.size < 9223372036854775808)
+    (h : sort f s algo = .ok s') :
+    c_cstl_raw_array_sort fuStd (f + 3) s 0 s.arr.size algo = .ok s' ∧
+      s'.arr.toList.Perm s.arr.toList ∧ s'.arr.toList.Pairwise (fun x y => x.key ≤ y.key) := by
+  refine ⟨by rw [sort_tie_std f s algo hc (by rw [h]; simp), h], ?_⟩
+  rcases sort_sorted_perm f s algo with ⟨s'', h', hp, hs⟩ | h'
+  · rw [h] at h'; cases h'; exact ⟨hp, hs⟩
+  · rw [h] at h'; cases h'
+
 /-- the hypotheses are satisfiable on a concrete array: the translated C function sorts `[3,1,2]`
 with every selector, and the run is the model's -/
-example : ∀ algo ∈ [0, 1, 2, 3, 99],
+theorem translated_sort_example : ∀ algo ∈ [0, 1, 2, 3, 99],
     (c_cstl_raw_array_sort fuStd 7 { arr := #[⟨3, 0⟩, ⟨1, 1⟩, ⟨2, 2⟩] } 0 3 algo).toOption.map (·.arr.toList.map (·.key))
       = some [1, 2, 3] ∧
     (sort 4 { arr := #[⟨3, 0⟩, ⟨1, 1⟩, ⟨2, 2⟩] } algo).toOption.map (·.arr.toList.map (·.key)) = some [1, 2, 3] := by
